@@ -4,19 +4,19 @@
 //! EdDSA verifier. Every token is hand-assembled JSON signed by the harness (`vx::fx::compact_ed`), because
 //! the library cannot emit the inconsistent / out-of-range claim sets.
 //!
-//! Worlds: six holder documents with id H = did:example:holder (choice point "holder document"); the key of a
+//! Worlds: six holder documents with id H = did:ex4mple:holder (choice point "holder document"); the key of a
 //! method is fixed by its fragment: a1 key 0, g2 key 1, g3 key 2, f4 key 3, s5 key 4, k7 key 5, d8 key 6, i9 key 7,
 //! x6 has no JWK (publicKeyMultibase); key 9 belongs to nobody.
 //!   D0 "rich"    a1 embedded in `authentication`; g2 general + referenced from `authentication`; g3 general only;
-//!                f4 general with a FOREIGN id did:example:other#f4 (recorded, not judged); s5 embedded in
+//!                f4 general with a FOREIGN id did:ex4mple:other#f4 (recorded, not judged); s5 embedded in
 //!                `assertionMethod`; x6 general; k7 embedded in `keyAgreement`; d8 embedded in `capabilityDelegation`;
 //!                i9 general + referenced from `capabilityInvocation`; a dangling reference H#gone in `assertionMethod`;
-//!                document `controller` and `alsoKnownAs` = did:example:other (must not make iss = other acceptable)
+//!                document `controller` and `alsoKnownAs` = did:ex4mple:other (must not make iss = other acceptable)
 //!   D1 "minimal" a1 embedded in `authentication`, nothing else
 //!   D2 "moved"   the same fragments in other places and in reverse order: a1 general + referenced from
 //!                `assertionMethod`; g2 general + `assertionMethod`; g3 general + `authentication`; i9 general +
 //!                `capabilityDelegation`; s5 embedded in `keyAgreement`; k7, d8 embedded in `capabilityInvocation`
-//!   D3..D5 "shared fragment": the holder's own H#m0 (key 8) and a foreign did:example:other#m0 (key 10), plus a1:
+//!   D3..D5 "shared fragment": the holder's own H#m0 (key 8) and a foreign did:ex4mple:other#m0 (key 10), plus a1:
 //!                D3 verificationMethod [other#m0, H#m0], H#m0 referenced from `authentication`, other#m0 from
 //!                `capabilityDelegation`; D4 the reverse order, other#m0 referenced from `assertionMethod`;
 //!                D5 H#m0 embedded in `authentication`, other#m0 general + `assertionMethod`.
@@ -59,9 +59,9 @@ use vx::choice::{self, Chooser};
 use vx::fx::{self, EdKey, RealVerifier};
 use vx::{guard, json, Ctx, Level};
 
-const H: &str = "did:example:holder";
+const H: &str = "did:ex4mple:holder";
 // a foreign DID that EXTENDS the holder DID by one character (so that a prefix comparison of DIDs confuses the two)
-const OTHER: &str = "did:example:holder2";
+const OTHER: &str = "did:ex4mple:holder2";
 /// 9999-12-31T23:59:59Z and 0000-01-01T00:00:00Z
 const MAX_TS: i64 = 253_402_300_799;
 const MIN_TS: i64 = -62_167_219_200;
@@ -389,8 +389,8 @@ fn body(ctx: &Ctx, acc: &Acc, groups: u8, ch: &mut Chooser) {
   let ononce_c = pt(ch, groups, G_NONCE, "option nonce", 5, &[], &[2]);
   let w: &World = &fix.worlds[world_c];
 
-  // did:example:holdes has the length of H and differs in the last character only
-  const H_SAME_LEN: &str = "did:example:holdes";
+  // did:ex4mple:holdes has the length of H and differs in the last character only
+  const H_SAME_LEN: &str = "did:ex4mple:holdes";
   let kid: Option<String> = match kid_c {
     0 => Some(format!("{H}#a1")),
     1 => Some("a1".into()),
@@ -618,15 +618,15 @@ fn body(ctx: &Ctx, acc: &Acc, groups: u8, ch: &mut Chooser) {
     0 => Some(H),
     1 => Some(OTHER),
     2 => Some("https://holder.example/profile"),
-    3 => Some("did:example:holder#a1"),
+    3 => Some("did:ex4mple:holder#a1"),
     4 => Some("holder"),
     5 => None,
-    6 => Some("did:example:holderx"),
-    7 => Some("did:example:holde"),
+    6 => Some("did:ex4mple:holderx"),
+    7 => Some("did:ex4mple:holde"),
     8 => Some("did:other:holder"),
-    9 => Some("did:example:Holder"),
-    10 => Some("did:example:holder?versionId=1"),
-    _ => Some("did:example:holder/path"),
+    9 => Some("did:ex4mple:Holder"),
+    10 => Some("did:ex4mple:holder?versionId=1"),
+    _ => Some("did:ex4mple:holder/path"),
   };
   match iss_c {
     0 => {}
@@ -642,8 +642,8 @@ fn body(ctx: &Ctx, acc: &Acc, groups: u8, ch: &mut Chooser) {
   let vp_holder: Option<&str> = match vph_c {
     0 => None,
     1 => Some(H),
-    2 => Some("did:example:mallory"),
-    _ => Some("did:example:holderx"),
+    2 => Some("did:ex4mple:mallory"),
+    _ => Some("did:ex4mple:holderx"),
   };
   if let Some(h) = vp_holder {
     if Some(h) != iss {
@@ -673,18 +673,18 @@ fn body(ctx: &Ctx, acc: &Acc, groups: u8, ch: &mut Chooser) {
   let props_c = pt(ch, groups, G_MISC, "vp properties", 3, &[], &[]);
   let aud_json: Option<Value> = match aud_c {
     0 => None,
-    1 => Some(json!("did:example:verifier")),
+    1 => Some(json!("did:ex4mple:verifier")),
     2 => Some(json!("https://verifier.example/aud")),
     _ => {
       x.o.insert("aud-array", L_VP);
-      Some(json!(["did:example:verifier"]))
+      Some(json!(["did:ex4mple:verifier"]))
     }
   };
   let custom: Map<String, Value> = match custom_c {
     0 => Map::new(),
     1 => json!({"foo": "bar", "n": 7, "nested": {"a": [1, 2]}}).as_object().unwrap().clone(),
     // top-level claims named like vp members / header parameters (none of them a registered JWT claim)
-    _ => json!({"holder": "did:example:mallory", "id": "https://example.com/presentations/2", "nonce": "nonce-2",
+    _ => json!({"holder": "did:ex4mple:mallory", "id": "https://example.com/presentations/2", "nonce": "nonce-2",
                 "verifiableCredential": ["x"], "type": "T"})
     .as_object()
     .unwrap()
@@ -782,7 +782,7 @@ fn body(ctx: &Ctx, acc: &Acc, groups: u8, ch: &mut Chooser) {
   if sig_c == 3 {
     // keep header and signature, replace the payload segment by a different claims set
     let mut evil = claims.clone();
-    evil.insert("aud".into(), json!("did:example:attacker"));
+    evil.insert("aud".into(), json!("did:ex4mple:attacker"));
     let seg: Vec<&str> = token.split('.').collect();
     token = format!("{}.{}.{}", seg[0], fx::b64(Value::Object(evil).to_string().as_bytes()), seg[2]);
   }
